@@ -3,8 +3,9 @@
 # /repo/wallet/wallet.go, build both variants and run the check (sharded over 16 worker
 # processes; each worker runs the -b2 binary for its shard and merges the result into the
 # ONE evidence file /verif/evidence/C16.json).
-#   C16_MUT=<1..7>  demonstration only: additionally apply one property-breaking overlay
-#                   (binaries and overlays then live under /verif/.cache/ov/c16/m<N>/, never in /verif/bin)
+#   C16_MUT=<n>     demonstration only: additionally apply one property-breaking overlay (see mkov/main.go)
+#   C16_PATCH=<f>   demonstration only: apply a unified diff (a/ b/ paths relative to /repo) as an overlay
+#                   (binaries and overlays then live under /verif/.cache/ov/c16/m<N>/ or .../patch/, never in /verif/bin)
 # exit: 0 held, 1 violation, 2 generator/build/harness error
 set -u
 export GOFLAGS=-mod=mod GOPROXY=off GOSUMDB=off GOTOOLCHAIN=local
@@ -14,15 +15,18 @@ mut="${C16_MUT:-0}"
 ov=/verif/.cache/ov/c16
 bin_main=/verif/bin/vh-c16
 bin_b2=/verif/bin/vh-c16-b2
+patch="${C16_PATCH:-}"
 if [ "$mut" != 0 ]; then
   ov="$ov/m$mut"; bin_main="$ov/vh-c16"; bin_b2="$ov/vh-c16-b2"
+elif [ -n "$patch" ]; then
+  ov="$ov/patch"; bin_main="$ov/vh-c16"; bin_b2="$ov/vh-c16-b2"
 fi
 mkdir -p "$ov" /verif/bin /verif/evidence /verif/replays || exit 2
 cd /verif/harness || exit 2
 (
   flock 9
   go build -o "$ov/mkov" ./c16/mkov 2>"$ov/build.err" || { cat "$ov/build.err" >&2; exit 2; }
-  "$ov/mkov" -out "$ov" -mut "$mut" || exit 2
+  "$ov/mkov" -out "$ov" -mut "$mut" ${patch:+-patch "$patch"} || exit 2
   go build -tags verif -overlay "$ov/ov-main.json" -o "$ov/vh-c16.new" ./c16/cmd 2>"$ov/build.err" \
       || { echo "HARNESS-ERROR: c16: build failed (a tree that does not compile is not a property verdict)" >&2; cat "$ov/build.err" >&2; exit 2; }
   go build -tags verif -overlay "$ov/ov-b2.json" -o "$ov/vh-c16-b2.new" ./c16/cmd 2>"$ov/build.err" \
